@@ -593,6 +593,7 @@ func (p *Policy) handleArchiving(ctx context.Context, storage logical.Storage) e
 	}
 
 	// Trim the keys if required
+	priorArchiveMinVersion := p.ArchiveMinVersion
 	if p.ArchiveMinVersion < p.MinAvailableVersion {
 		archive.Keys = archive.Keys[p.MinAvailableVersion-p.ArchiveMinVersion:]
 		p.ArchiveMinVersion = p.MinAvailableVersion
@@ -600,6 +601,9 @@ func (p *Policy) handleArchiving(ctx context.Context, storage logical.Storage) e
 
 	err = p.storeArchive(ctx, storage, archive)
 	if err != nil {
+		// The stored archive still has its old base; a retried trim must
+		// not believe it was already re-based.
+		p.ArchiveMinVersion = priorArchiveMinVersion
 		return err
 	}
 
